@@ -10,6 +10,7 @@ from .. import weaver_common as W
 from ..core import floats
 
 ID = "C09"
+THREADS = True       # part of the cases run concurrently in threads of one interpreter (the schedule dimension)
 MODULES = ["TWV.Properties.C09"]
 RULE = ("random programs of <= 10 operations over the whole public API (17 kinds: append, shift x/y, scale x/y, normalise x/y, "
         "repeat, truncate by value / index, recreate (6 strategies), integral_match, interpolate (4 methods, n or explicit "
